@@ -35,6 +35,9 @@ HOT_SCRIPTS = [
 ]
 
 SHARE_SCRIPTS = [
+    # two subscribers from the prologue; one leaves from another thread while the source emits: the other one keeps receiving
+    ("(sub 0) (sub 1)", ["(a (n 1)) (a (n 2))", "(unsub 0)"]),
+    ("(sub 0) (sub 1) (a (n 5))", ["(a (n 1)) (a (n 2))", "(unsub 1)", "(sub 2)"]),
     ["(sub 0) (a (n 1)) (unsub 0)", "(sub 1) (a (n 2))"],
     ["(sub 0) (a (n 1))", "(sub 1) (unsub 1)", "(a (n 2))"],
     ["(sub 0) (unsub 0) (sub 2)", "(sub 1) (a (n 1)) (a c)"],
